@@ -153,11 +153,44 @@ where
     SP: StateSpace<StateType = S> + 'static,
 {
     let cfg = PlannerConfig { seed: params.seed };
-    let mut pl: AnyPlanner<S, SP> = match params.kind {
-        PlannerKind::Rrt => AnyPlanner::Rrt(RRT::new(params.maxd, params.bias, &cfg)),
-        PlannerKind::Star => AnyPlanner::Star(RRTStar::new(params.maxd, params.bias, params.radius, &cfg)),
-        PlannerKind::Conn => AnyPlanner::Conn(RRTConnect::new(params.maxd, params.bias, &cfg)),
-        PlannerKind::Prm => AnyPlanner::Prm(PRM::new(params.build_secs, params.radius, &cfg)),
+    // The parameters are public fields: half of the runs (by the parity of the seed) construct the planner with
+    // other values and then assign the real ones, as a user tuning a planner object would
+    let assign_later = params.seed.map(|s| s % 2 == 1).unwrap_or(false);
+    let mut pl: AnyPlanner<S, SP> = if !assign_later {
+        match params.kind {
+            PlannerKind::Rrt => AnyPlanner::Rrt(RRT::new(params.maxd, params.bias, &cfg)),
+            PlannerKind::Star => AnyPlanner::Star(RRTStar::new(params.maxd, params.bias, params.radius, &cfg)),
+            PlannerKind::Conn => AnyPlanner::Conn(RRTConnect::new(params.maxd, params.bias, &cfg)),
+            PlannerKind::Prm => AnyPlanner::Prm(PRM::new(params.build_secs, params.radius, &cfg)),
+        }
+    } else {
+        match params.kind {
+            PlannerKind::Rrt => {
+                let mut x = RRT::new(params.maxd * 16.0 + 1.0, 0.5, &cfg);
+                x.max_distance = params.maxd;
+                x.goal_bias = params.bias;
+                AnyPlanner::Rrt(x)
+            }
+            PlannerKind::Star => {
+                let mut x = RRTStar::new(params.maxd * 16.0 + 1.0, 0.5, params.radius * 0.25, &cfg);
+                x.max_distance = params.maxd;
+                x.goal_bias = params.bias;
+                x.search_radius = params.radius;
+                AnyPlanner::Star(x)
+            }
+            PlannerKind::Conn => {
+                let mut x = RRTConnect::new(params.maxd * 16.0 + 1.0, 0.5, &cfg);
+                x.max_distance = params.maxd;
+                x.goal_bias = params.bias;
+                AnyPlanner::Conn(x)
+            }
+            PlannerKind::Prm => {
+                let mut x = PRM::new(params.build_secs * 0.5, params.radius * 4.0 + 1.0, &cfg);
+                x.timeout = params.build_secs;
+                x.connection_radius = params.radius;
+                AnyPlanner::Prm(x)
+            }
+        }
     };
     let fresh_pd = |i: usize| -> Arc<PD<S, SP>> {
         Arc::new(ProblemDefinition {
